@@ -1,5 +1,7 @@
 """E2 — block execution, fixpoint engine (path mode + join mode), calls."""
 import heapq
+import os
+import sys
 
 import re
 from .absint import (I, Fl, Ag, En, Sq, Pt, Top, Md, UNIT, BOT, Bot, St, Ctx, Frame, Unsupported, Diverge, PathAbort,
@@ -15,6 +17,7 @@ class Engine(Interp):
     def __init__(self, ctx):
         super().__init__(ctx)
         self.default_path_steps = 3000
+        self.nested_path_steps = 60000
         import itertools
         self._tick = itertools.count()
 
@@ -605,7 +608,20 @@ class Engine(Interp):
         bi = 0
         steps = 0
         base = len(st.part)
+        ctx = self.ctx
+        steps0 = ctx.steps
+        nested_cap = self.nested_path_steps if budget == self.default_path_steps else None
+        seen = {}
         while True:
+            if nested_cap is not None:
+                c = seen[bi] = seen.get(bi, 0) + 1
+                if c > 8 and ctx.steps - steps0 > nested_cap:
+                    # an exactly unrolled loop whose body is expensive (it has consumed nested_cap block executions in
+                    # callees): continue with the join-based fixpoint instead of unrolling up to the own-step budget
+                    ctx.nested_switches = getattr(ctx, "nested_switches", 0) + 1
+                    if os.environ.get("FALCON_DEBUG_NESTED"):
+                        sys.stderr.write(f"[nested-cap] {fr.inst.name} block {bi} after {ctx.steps - steps0} nested steps\n")
+                    return self.run_join(fr, [(bi, st)], base)
             try:
                 outs = self.exec_block(st, fr, bi, pathmode=True)
             except Diverge:
